@@ -1,3 +1,177 @@
+import QmiModel.Model.Adbasic
 import Drv.Common
-/-! stub driver for C20: replaced when the model is built -/
-def main : IO Unit := Drv.main' (fun (s : Unit) _ => (s, "bad-op")) ()
+open QmiModel.Adbasic
+
+/-! Line-protocol driver for C20 (ADbasic parser + AdwinProcess batch accessors).
+
+Strings travel as hex of their UTF-8 bytes (`-` = empty). One answer line per request line. -/
+
+structure St where
+  files : Files := []
+  syms  : List Sym := []
+  bind  : Binding := { param := [], data := [] }
+  dev   : Dev := Dev.init
+
+def decStr (h : String) : Option Str := do
+  let bs ← Drv.unhex h
+  let s ← String.fromUTF8? (ByteArray.mk bs.toArray)
+  pure s.toList
+
+def encStr (s : Str) : String := Drv.hex (String.ofList s).toUTF8.toList
+
+def splitComma (s : String) : List String := if s == "-" then [] else s.splitOn ","
+
+def joinComma (l : List String) : String := if l.isEmpty then "-" else ",".intercalate l
+
+def showDesc : Desc → String
+  | .par i => s!"P{i}"
+  | .fpar i => s!"F{i}"
+  | .elem d e => s!"D{d}[{e}]"
+
+def showKind : ErrKind → String
+  | .dupCase => "dup-case"
+  | .dupIndex => "dup-target"
+  | .dupRef => "dup-ref"
+  | .unknownArray => "unknown-array"
+
+def showExc : PyExc → String
+  | .osError => "exc:OSError"
+  | .valueError => "exc:ValueError"
+  | .typeError => "exc:TypeError"
+  | .keyError => "exc:KeyError"
+
+def showSym (s : Sym) : String := s!"{encStr s.file}:{s.line}:{encStr s.label}:{encStr s.value}"
+
+def sortStrings (l : List String) : List String := (l.toArray.qsort (· < ·)).toList
+
+def decVal (t : String) : Option Val :=
+  match t.toList with
+  | 'i' :: r => (String.ofList r).toInt?.map Val.int
+  | 'f' :: r => (String.ofList r).toInt?.map Val.flt
+  | _ => none
+
+def decAssign (t : String) : Option (Str × Val) :=
+  match t.splitOn "=" with
+  | [n, v] => do
+    let n' ← decStr n
+    let v' ← decVal v
+    pure (n', v')
+  | _ => none
+
+def showAccess : Access → String
+  | .getPar i => s!"gp{i}"
+  | .getFPar i => s!"gf{i}"
+  | .getData d f c => s!"gd{d}:{f}:{c}"
+  | .setPar i => s!"sp{i}"
+  | .setFPar i => s!"sf{i}"
+  | .setData d f c => s!"sd{d}:{f}:{c}"
+
+def decReg (t : String) : Option Desc :=
+  match t.toList with
+  | 'P' :: r => (String.ofList r).toNat?.map Desc.par
+  | 'F' :: r => (String.ofList r).toNat?.map Desc.fpar
+  | 'D' :: r =>
+    match (String.ofList r).splitOn ":" with
+    | [d, e] => do
+      let d' ← d.toNat?
+      let e' ← e.toNat?
+      pure (Desc.elem d' e')
+    | _ => none
+  | _ => none
+
+def showUnit (o : Out Unit) : String :=
+  match o.res with
+  | .ok _ => "ok"
+  | .error x => showExc x
+
+def stepLine (st : St) (line : String) : St × String :=
+  match line.splitOn " " with
+  | ["reset"] => ({}, "ok")
+  | ["file", p, raw] =>
+    match decStr p, decStr raw with
+    | some p', some r' => ({ st with files := st.files ++ [(p', r')] }, "ok")
+    | _, _ => (st, "bad-op")
+  | ["scan", p, raw] =>
+    match decStr p, decStr raw with
+    | some p', some r' =>
+      let (syms, incs) := scanFile p' r'
+      (st, s!"syms={joinComma (syms.map showSym)} incs={joinComma (incs.map encStr)}")
+    | _, _ => (st, "bad-op")
+  | ["resolve", a, b, c] =>
+    match decStr a, decStr b, decStr c with
+    | some a', some b', some c' =>
+      match resolveInclude a' b' c' with
+      | none => (st, "none")
+      | some r => (st, s!"some {encStr r}")
+    | _, _, _ => (st, "bad-op")
+  | ["parse", fuel, f, d] =>
+    match fuel.toNat?, decStr f, decStr d with
+    | some n, some f', some d' =>
+      match parseProgram n st.files f' d' with
+      | .ok syms => ({ st with syms := syms }, s!"ok {syms.length} {joinComma (syms.map showSym)}")
+      | .exc e => ({ st with syms := [] }, showExc e)
+      | .outOfFuel => ({ st with syms := [] }, "out-of-fuel")
+    | _, _, _ => (st, "bad-op")
+  | ["symclear"] => ({ st with syms := [] }, "ok")
+  | ["sym", f, l, lab, v] =>
+    match decStr f, l.toNat?, decStr lab, decStr v with
+    | some f', some l', some lab', some v' =>
+      ({ st with syms := st.syms ++ [{ file := f', line := l', label := lab', value := v' }] }, "ok")
+    | _, _, _, _ => (st, "bad-op")
+  | ["analyze"] =>
+    match analyze st.syms with
+    | .ok b =>
+      let ps := sortStrings (b.param.map (fun kv => s!"{encStr kv.1}:{showDesc kv.2}"))
+      let ds := sortStrings (b.data.map (fun kv => s!"{encStr kv.1}:{kv.2}"))
+      ({ st with bind := b }, s!"ok par={joinComma ps} data={joinComma ds}")
+    | .error .valueError => ({ st with bind := { param := [], data := [] } }, "exc:ValueError")
+    | .error (.parse e) =>
+      ({ st with bind := { param := [], data := [] } },
+       s!"exc:ParseException {encStr e.file} {e.line} {showKind e.kind} {encStr e.label} {encStr e.extra}")
+  | ["devinit"] => ({ st with dev := Dev.init }, "ok")
+  | ["get", n] =>
+    match decStr n with
+    | some n' =>
+      let o := getPar st.bind.param st.dev n'
+      ({ st with dev := o.dev }, match o.res with | .ok v => s!"ok {v.num}" | .error x => showExc x)
+    | none => (st, "bad-op")
+  | ["set", n, v] =>
+    match decStr n, decVal v with
+    | some n', some v' =>
+      let o := setPar st.bind.param st.dev n' v'
+      ({ st with dev := o.dev }, showUnit o)
+    | _, _ => (st, "bad-op")
+  | ["mget", ns] =>
+    match (splitComma ns).mapM decStr with
+    | some names =>
+      let o := getParMultiple st.bind.param st.dev names
+      ({ st with dev := o.dev },
+       match o.res with
+       | .ok r => s!"ok {joinComma (sortStrings (r.map (fun kv => s!"{encStr kv.1}={kv.2.num}")))}"
+       | .error x => showExc x)
+    | none => (st, "bad-op")
+  | ["mset", as] =>
+    match (splitComma as).mapM decAssign with
+    | some ps =>
+      let o := setParMultiple st.bind.param st.dev ps
+      ({ st with dev := o.dev }, showUnit o)
+    | none => (st, "bad-op")
+  | ["startwp", as] =>
+    match (splitComma as).mapM decAssign with
+    | some kw =>
+      let o := setParMultiple st.bind.param st.dev (startParams st.bind.param kw)
+      ({ st with dev := o.dev }, showUnit o)
+    | none => (st, "bad-op")
+  | ["log"] =>
+    ({ st with dev := { st.dev with log := [] } }, joinComma (st.dev.log.reverse.map showAccess))
+  | ["regs", rs] =>
+    match (splitComma rs).mapM decReg with
+    | some regs => (st, joinComma (regs.map (fun r => toString (st.dev.readReg r).num)))
+    | none => (st, "bad-op")
+  | ["ranges", ns] =>
+    match (splitComma ns).mapM String.toNat? with
+    | some l => (st, joinComma ((findRanges l).map (fun r => s!"{r.1}-{r.2}")))
+    | none => (st, "bad-op")
+  | _ => (st, "bad-op")
+
+def main : IO Unit := Drv.main' stepLine ({} : St)
